@@ -259,6 +259,23 @@ func (p *Core) Gen(w *sim.World) []sim.Op {
 		switch w.Pick(o.WSend, o.WRelay, o.WBlock, o.WDup, o.WEarlyTmo, o.WClose, o.WMut, o.WRestart, o.WUpdate, o.WAsyncAck, 2+o.WSkew, o.WLocalVerify, o.WDelayProbe, o.WXfer, o.WDonate, o.WAttack, o.WRateAdm, o.WGrant, o.WReReg, o.WGenesis, o.WLostCommit) {
 		case 19:
 			ci := w.Intn(len(p.C))
+			if p.Opt.Tokens {
+				// a restart is worth most on a chain that holds escrowed coins whose vouchers are
+				// out (they must still be able to return afterwards)
+				var holds []int
+				for i := range p.C {
+					for _, d := range sim.SortedKeys(p.tok.tracked[i]) {
+						if p.tok.tracked[i][d].IsPositive() {
+							holds = append(holds, i)
+							break
+						}
+					}
+				}
+				if len(holds) == 0 {
+					continue
+				}
+				ci = holds[w.Intn(len(holds))]
+			}
 			if p.genesisRestarts < 2 {
 				p.genesisRestarts++
 				return []sim.Op{{K: "gexp", C: ci}}
